@@ -87,10 +87,11 @@ Definition routine_ok (r : fsum) : bool := segs_ok (f_segs r) && decoration_effe
 
 Definition mem (s : string) (l : list string) : bool := existsb (String.eqb s) l.
 
-(* the routines of the unchanged tree that are known not to pass (findings.d/C08.json, class
-   "yield under altered_default_filters in <function>" / "decorated generator function") *)
-Definition known_offenders : list string :=
-  [ "NodeBase._iterate_preceding"; "TagNode.iterate_descendants"; "_Epilogue._iter_all"; "_Prologue._iter_all" ]%string.
+(* routines known not to pass the check (open findings of findings.d/C08.json).  Empty since /repo
+   commits b5ea840 and 7e4e5e3 repaired TagNode.iterate_descendants, _Epilogue._iter_all,
+   _Prologue._iter_all (context held across yield) and NodeBase._iterate_preceding (decorated
+   generator function). *)
+Definition known_offenders : list string := [].
 
 Definition offenders (rs : list fsum) : list string :=
   map f_name (filter (fun r => negb (routine_ok r)) rs).
